@@ -50,7 +50,9 @@ def run(tier, seed):
     replay_known(rep, "C04")
     run_bounded(rep, "C04", [("pressure", {"depth": 4, "max_stmts": 8, "max_funcs": 3}, "calls", 500 if q else 12000),
                              ("calls", {"calls_focus": True, "max_funcs": 3}, "calls", 700 if q else 12000),
-                             ("general", {}, "default", 900 if q else 20000)],
+                             ("general", {}, "default", 900 if q else 20000),
+                             ("modules", {"modules": True, "collide": False}, "modules", 300 if q else 6000),
+                             ("modules-state", {"modules": True, "state_only": True}, "modules", 150 if q else 3000)],
                 budget_s=75 if q else 1500, seed=seed, want=["C04", "C01", "C02"])
     rep.trust("spec/ic10_machine.py, spec/dialect.py (a clobbered live value shows up as a difference of effects)", "pyvc symbolic execution of assign_colors (complete unrolling for n symbols)")
     rep.assume("assign_colors is proved for every number of symbols (track U: 2 loop invariants of 10 + 9 clauses, ghost owner lists / slot fields; mathematical integers); the K obligations (n <= N, complete unrolling) are an independent second encoding of the same function and are labelled bounded",
